@@ -122,6 +122,12 @@ class Executor(Engine):
             ty = self.cur.ty(self.cur.locals[target.id])
             if isinstance(ty, (TList, TSet)):
                 value._elem_ty = ty.elem
+            if isinstance(ty, TDict):
+                value._dict_ty = ty
+            if isinstance(ty, TOpt) and isinstance(ty.inner, TDict):
+                value._dict_ty = ty.inner
+            if isinstance(ty, TOpt) and isinstance(ty.inner, (TList, TSet)):
+                value._elem_ty = ty.inner.elem
 
     def st_AnnAssign(self, s, st):
         if s.value is None:
@@ -141,6 +147,15 @@ class Executor(Engine):
             for t, p in zip(tgt.elts, tuple_parts(val)):
                 st = self.assign(t, p, st, results, line)
             return st
+        if isinstance(tgt, ast.Attribute) and isinstance(tgt.value, ast.Name):
+            name = tgt.value.id
+            base = st.env[name]
+            if isinstance(base.ty, TRec) and tgt.attr in base.ty.fields:
+                rt = base.ty
+                terms = [coerce(val, fty).t if f == tgt.attr else rt.get(f, base.t) for f, fty in rt.fields.items()]
+                st.env[name] = V(rt, rt.mk(*terms))
+                return st
+            raise OutOfSubset(f'attribute store {ast.unparse(tgt)} at line {line} (property setters are not modelled)')
         if isinstance(tgt, ast.Subscript) and isinstance(tgt.value, ast.Name) and isinstance(tgt.slice, ast.Slice):
             name = tgt.value.id
             base = st.env[name]
@@ -180,12 +195,17 @@ class Executor(Engine):
                 lt = base.ty
                 st2.env[name] = V(lt, lt.mk(z3.Store(lt.arr(base.t), j, coerce(val, lt.elem).t), n))
                 return st2
+            obase = base
+            if isinstance(base.ty, TOpt) and isinstance(base.ty.inner, TDict):
+                ctx.exc('TypeError', base.ty.is_none(base.t))
+                base = V(base.ty.inner, base.ty.val(base.t))
             if isinstance(base.ty, TDict):
                 dt = base.ty
                 k = coerce(idx, dt.k)
                 st2 = self.commit(st, ctx, results).fork()
-                st2.env[name] = V(dt, dt.mk(z3.Store(dt.has(base.t), k.t, True),
-                                            z3.Store(dt.at(base.t), k.t, coerce(val, dt.v).t)))
+                newd = V(dt, dt.mk(z3.Store(dt.has(base.t), k.t, True),
+                                   z3.Store(dt.at(base.t), k.t, coerce(val, dt.v).t)))
+                st2.env[name] = coerce(newd, obase.ty)
                 return st2
         raise OutOfSubset(f'assignment target {ast.unparse(tgt)} at line {line}')
 
@@ -209,11 +229,26 @@ class Executor(Engine):
             raise OutOfSubset(f'mutation of unbound {name}')
         args = [self.ev.ev(a, ctx) for a in call.args]
         new = None
+        obase = base
+        if isinstance(base.ty, TOpt) and isinstance(base.ty.inner, (TList, TSet, TBag)):
+            ctx.exc('AttributeError', base.ty.is_none(base.t))
+            base = V(base.ty.inner, base.ty.val(base.t))
         if isinstance(base.ty, TList):
             lt = base.ty
             arr, n = lt.arr(base.t), lt.n(base.t)
             if meth == 'append':
-                new = V(lt, lt.mk(z3.Store(arr, n, coerce(args[0], lt.elem).t), n + 1))
+                xa = coerce(args[0], lt.elem).t
+                new = V(lt, lt.mk(z3.Store(arr, n, xa), n + 1))
+                et = lt.elem
+                if et in (INT, BOOL, STR) or isinstance(et, (TRec, TTuple, TAbs)):
+                    # membership after append (a fact about `in`, stated for the Skolemised form used by expr.member)
+                    y = V(et, fresh('y', et.sort()))
+                    c3 = Ctx(st.env, spec=True, engine=self)
+                    m_new = self.ev.member(y, new, c3)
+                    m_old = self.ev.member(y, base, c3)
+                    for a_ in c3.assumes:
+                        ctx.assume(a_)
+                    ctx.assume(z3.ForAll([y.t], m_new == z3.Or(m_old, y.t == xa)))
             elif meth == 'extend' and isinstance(args[0].ty, TList):
                 new = self.ev.list_concat(base, args[0], ctx)
                 new = V(lt, new.t) if new.ty == lt else new
@@ -242,7 +277,7 @@ class Executor(Engine):
         if new is None:
             raise OutOfSubset(f'.{meth} on {base.ty} at line {line}')
         st2 = self.commit(st, ctx, results).fork()
-        st2.env[name] = new
+        st2.env[name] = coerce(new, obase.ty) if obase is not base else new
         return results + [(st2, None)]
 
     def bag_union(self, a, b, ctx):
@@ -307,6 +342,26 @@ class Executor(Engine):
         c = truthy(self.ev.ev(s.test, ctx))
         st2 = self.commit(st, ctx, results)
         out = list(results)
+        # `if c: x = e` (no else, no possible exception in e): merged as x = ite(c, e, x) instead of forking the path
+        if not s.orelse and len(s.body) == 1 and isinstance(s.body[0], ast.Assign) and len(s.body[0].targets) == 1 \
+                and isinstance(s.body[0].targets[0], ast.Name) and s.body[0].targets[0].id in st2.env \
+                and not z3.is_false(z3.simplify(c)) and not z3.is_true(z3.simplify(c)):
+            nm = s.body[0].targets[0].id
+            c2 = Ctx(st2.env, spec=False, old=st2.old, engine=self, line=s.lineno)
+            c2.guards.append(c)
+            try:
+                self.hint_literal(s.body[0].value, s.body[0].targets[0])
+                val = self.ev.ev(s.body[0].value, c2)
+                if not c2.excs and not c2.side:
+                    oldv = st2.env[nm]
+                    if nm in self.cur.locals:
+                        val = coerce(val, self.cur.ty(self.cur.locals[nm]))
+                    ty = join_types(val.ty, oldv.ty)
+                    st3 = State(dict(st2.env), st2.pc + c2.assumes, st2.bag, st2.old)
+                    st3.env[nm] = V(ty, z3.If(c, coerce(val, ty).t, coerce(oldv, ty).t))
+                    return out + [(st3, None)]
+            except OutOfSubset:
+                pass
         for cond, block in ((c, s.body), (z3.Not(c), s.orelse)):
             cs = z3.simplify(cond)
             if z3.is_false(cs):
@@ -394,6 +449,12 @@ class Executor(Engine):
                     raise OutOfSubset('non-constant range step')
                 lo, hi, step = args[0], args[1], sv.as_long()
             kind, data = 'range', dict(lo=lo, hi=hi, step=step)
+        elif isinstance(it, ast.Call) and isinstance(it.func, ast.Attribute) and it.func.attr in ('items', 'keys', 'values') \
+                and not it.args:
+            src = self.ev.unwrap_opt(self.ev.ev(it.func.value, ctx), ctx, 'AttributeError')
+            if not isinstance(src.ty, TDict):
+                raise OutOfSubset(f'.{it.func.attr}() on {src.ty}')
+            kind, data = 'dict', dict(src=src, mode=it.func.attr, enum=False, start=z3.IntVal(0))
         else:
             enum = False
             start = z3.IntVal(0)
@@ -411,9 +472,11 @@ class Executor(Engine):
                 kind = 'str'
             elif isinstance(src.ty, TBag):
                 kind = 'bag'
+            elif isinstance(src.ty, TDict):
+                kind = 'dict'
             else:
                 raise OutOfSubset(f'for over {src.ty} at line {node.lineno}')
-            data = dict(src=src, enum=enum, start=start)
+            data = dict(src=src, enum=enum, start=start, mode='keys')
         st2 = self.commit(st, ctx, results)
         return st2, kind, data
 
@@ -465,6 +528,9 @@ class Executor(Engine):
         if kind == 'bag':
             bt = data['src'].ty
             extra0[f'_done{ordn}'] = V(bt, z3.K(bt.elem.sort(), z3.IntVal(0)))
+        if kind == 'dict':
+            dt = data['src'].ty
+            extra0[f'_seen{ordn}'] = V(TSet(dt.k), z3.K(dt.k.sort(), False))
         self.check_invs(ordn, st0, self.inv_env(st0, ordn, z3.IntVal(0), extra0), 'entry', node.lineno)
         # arbitrary iteration
         sth = self.havoc(st0, (names | tnames), yields)
@@ -478,6 +544,12 @@ class Executor(Engine):
             t = fresh('t', bt.elem.sort())
             sth.pc = sth.pc + wf + [z3.ForAll([t], z3.Select(done.t, t) <= z3.Select(data['src'].t, t))]
             extra[f'_done{ordn}'] = done
+        if kind == 'dict':
+            dt = data['src'].ty
+            done, wf = self.fresh_value(f'_seen{ordn}', TSet(dt.k))
+            t = fresh('t', dt.k.sort())
+            sth.pc = sth.pc + wf + [z3.ForAll([t], z3.Implies(z3.Select(done.t, t), z3.Select(dt.has(data['src'].t), t)))]
+            extra[f'_seen{ordn}'] = done
         self.assume_invs(ordn, sth, self.inv_env(sth, ordn, k, extra))
         # guard and target binding (plus the implicit invariant: the iteration counter never exceeds the length)
         if kind == 'range':
@@ -496,6 +568,13 @@ class Executor(Engine):
             sth.pc = sth.pc + [k <= n]
             item = list_at(src, k) if kind == 'list' else V(STR, z3.SubString(src.t, k, 1))
             tval = mk_tuple([V(INT, data['start'] + k), item]) if data['enum'] else item
+        elif kind == 'dict':
+            src = data['src']
+            dt = src.ty
+            x, wf = self.fresh_value('key', dt.k)
+            guard = z3.And(*(wf + [z3.Select(dt.has(src.t), x.t), z3.Not(z3.Select(done.t, x.t))]))
+            item = V(dt.v, z3.Select(dt.at(src.t), x.t))
+            tval = {'items': mk_tuple([x, item]), 'keys': x, 'values': item}[data['mode']]
         else:
             src = data['src']
             x, wf = self.fresh_value('elem', src.ty.elem)
@@ -511,6 +590,8 @@ class Executor(Engine):
                     extra2 = bagv(st2)
                     if kind == 'bag':
                         extra2[f'_done{ordn}'] = V(done.ty, z3.Store(done.t, x.t, z3.Select(done.t, x.t) + 1))
+                    if kind == 'dict':
+                        extra2[f'_seen{ordn}'] = V(done.ty, z3.Store(done.t, x.t, True))
                     self.check_invs(ordn, st2, self.inv_env(st2, ordn, k + 1, extra2),
                                     f'preserve:p{self.next_path()}', node.lineno)
                 elif o[0] == 'break':
@@ -518,7 +599,10 @@ class Executor(Engine):
                 else:
                     results.append((st2, o))
         # exit
-        if kind == 'bag':
+        if kind == 'dict':
+            t = fresh('t', src.ty.k.sort())
+            nguard = z3.ForAll([t], z3.Select(done.t, t) == z3.Select(src.ty.has(src.t), t))
+        elif kind == 'bag':
             t = fresh('t', src.ty.elem.sort())
             nguard = z3.ForAll([t], z3.Select(done.t, t) == z3.Select(src.t, t))
         else:
@@ -674,6 +758,8 @@ class Executor(Engine):
                 env2 = dict(old)
                 env2['result'] = res
                 env2['yields'] = res
+                if 'self' in st2.env:
+                    env2['self_final'] = st2.env['self']   # the receiver after the call (in-place editors)
                 # exit lemmas: proved in order at this exit (locals visible), then available to the ensures clauses
                 lem_pc = list(st2.pc)
                 proved_lemmas = {}
@@ -802,6 +888,13 @@ def make_engine(modname, repo=None):
     cons = {q: Contract(q, d, m.ALIASES) for q, d in m.C.items()}
     eng = Executor(cons, m.ALIASES, getattr(m, 'MACROS', {}), getattr(m, 'GLOBALS', {}))
     eng.exc_parents = getattr(m, 'EXC_PARENTS', {})
+    from . import types as _t
+    _t.RECORDS.clear()
+    for rname, fields in getattr(m, 'RECORDS', {}).items():
+        _t.register_record(rname, fields, m.ALIASES)
+    _t.finish_records()
+    eng.classes = getattr(m, 'CLASSES', {})
+    eng.ctors = getattr(m, 'CTORS', {})
     eng.funcs = getattr(m, 'FUNCS', {})
     eng.axioms = getattr(m, 'AXIOMS', [])
     eng.sigs = {}
